@@ -14,7 +14,7 @@ RULE = ('pairs of nested values, ignore_order on and off; with ignore_order: lis
         'lists of DeepDiff, DeepHash and Delta computations, each compared with its serial result. distinct = distinct (t1, t2, ignore_order); non-trivial = the diff is not empty')
 TRUSTED_BASE = ['CPython threads / GIL scheduling: interleavings are sampled, not enumerated', 'the memoised distance is a function of the cache key (assumption of the theorem; '
                 'exercised by the identical-results check)']
-ASSUMPTIONS = ['cutoff_intersection_for_pairs at its default (finding F16 at 1.0 with the pairs cache)', 'tree-shaped inputs, and lists that refer to one template sub-list in several places']
+ASSUMPTIONS = ['cutoff_intersection_for_pairs at its default (finding F16 at 1.0 with the pairs cache)', 'no two different sub-lists with one DeepHash digest, i.e. equal up to order and repetition (finding F61: the distance cache is keyed by digests)', 'tree-shaped inputs, and lists that refer to one template sub-list in several places']
 
 
 def canon(dd):
@@ -427,7 +427,15 @@ def run(ctx, impl_only=False):
         r0 = canon(DeepDiff(a, b, ignore_order=True, cutoff_intersection_for_pairs=1, cache_size=0))
         r1 = canon(DeepDiff(a, b, ignore_order=True, cutoff_intersection_for_pairs=1, cache_size=5000))
         return r0 == r1
-    for fid, fn in {'F16': f16}.items():
+    def f61():
+        a = [[0, [0], [1]], [[1]]]; b = [[[3, 1, 1, 2], 0], [[0], [3, 2, 1]], [[1]]]
+        return canon(DeepDiff(a, b, ignore_order=True, cache_size=0)) == canon(DeepDiff(a, b, ignore_order=True, cache_size=5000))
+    def f63():
+        import numpy as np
+        a = np.array([[3, 0, 3], [1, 5, 0]], dtype=np.uint8); b = np.array([[3, 0, 137], [3, 0, 3]], dtype=np.uint8)
+        return (DeepDiff(a, b, ignore_order=True, cache_size=0, cache_tuning_sample_size=0).to_json() ==
+                DeepDiff(a, b, ignore_order=True, cache_size=5000, cache_tuning_sample_size=0).to_json())
+    for fid, fn in {'F16': f16, 'F61': f61, 'F63': f63}.items():
         ctx.evaluations += 1
         try:
             ok = fn()
